@@ -48,6 +48,9 @@ CHECKS = {
  "C14": ("progsim", "runtime monitoring: scripted inner streams/sinks driven call by call; same oracles as C13",
   "fastrace-futures InSpan around scripted Stream/Sink objects: poll_next/poll_ready/start_send/poll_flush/poll_close with Pending/item/None/Err outcomes, finish exactly on None / close / drop, final-call recordings complete, context restored.",
   "same as C13", "DESIGN.md §5 C14"),
+ "C16": ("inert+progsim", "runtime monitoring: closure-invocation / reporter-call / thread counters over random API sequences in a build without `enable`, closure counts vs model in the enabled build",
+  "A binary linked against fastrace without `enable` (own workspace, so feature unification cannot turn it on) drives seeded random sequences over the whole public API: zero closure invocations, zero report() calls, unchanged /proc/self/task count across set_reporter and flush, None from from_span/current_local_parent/elapsed, empty to_span_records, unchanged results of #[trace] functions and adapters. Enabled build: for every closure-taking operation of generated programs the number of invocations must equal the model's (zero for no-op spans, spans derived from them, local operations without a recording scope); a separate process checks the calls made before set_reporter.",
+  "closures given to Event::with_properties run eagerly in the enabled build by design and are not counted there", "DESIGN.md §5 C16"),
  "C17": ("progsim", "runtime monitoring: copy-equality oracle over pushed local-span sets and to_span_records",
   "collected forests with events/properties/open spans pushed to 1-8 parents: all delivered copies must agree in id, name, properties, events, duration (2 ns) and hang under their push parent; to_span_records(ctx) must equal the model and the delivered copies.",
   "same-trace pushes hit a recorded finding and are tagged", "DESIGN.md §5 C17"),
@@ -97,6 +100,8 @@ def main():
         "engines": [
             {"name": "codec", "path": "harness/hx/src/bin/codec.rs", "serves_properties": ["C12"],
              "kind_free_text": "pure-function monitoring of the text codecs against an independent reference"},
+            {"name": "inert", "path": "harness-inert/src/main.rs", "serves_properties": ["C16"],
+             "kind_free_text": "random API sequences against a build without the `enable` feature; counters are the observation"},
             {"name": "hostile", "path": "harness/hx/src/bin/hostile.rs", "serves_properties": ["C07"],
              "kind_free_text": "one-process-per-scenario hostile API use (limits, TLS teardown, pre-reporter, full ring); exit status and JSON are the observation"},
             {"name": "progsim", "path": "harness/hx/src/bin/progsim.rs", "serves_properties": sorted(p for p in claimed if "progsim" in CHECKS[p][0]),
